@@ -631,6 +631,44 @@ impl G {
         }
         s
     }
+    /// A structured list: markers, continuation lines, nested items (also on the marker's line).
+    pub fn list_block(&mut self, indent: usize, d: usize) -> String {
+        let mut s = String::new();
+        let n = 1 + self.r.below(3);
+        let marker = self.r.pick(&["- ", "+ ", "/ Term: ", "1. ", "-  "]).to_string();
+        for _ in 0..n {
+            s += &" ".repeat(indent);
+            s += &marker;
+            let body_col = indent + marker.len();
+            if d > 0 && self.r.below(6) == 0 {
+                // a nested item on the marker's line
+                let inner = self.list_block(body_col, d - 1);
+                s += inner.trim_start();
+                continue;
+            }
+            s += self.r.pick(&["item", "some words", "a *b* c", "#f(a, b)", "$x$", "x #g[y] z", ""]);
+            s += "\n";
+            for _ in 0..self.r.below(3) {
+                match self.r.below(4) {
+                    0 => {
+                        s += &" ".repeat(body_col + self.r.below(3));
+                        s += self.r.pick(&["continued", "more #h(1em) text", "$ y $", "#let q = (1,\n 2)"]);
+                        s += "\n";
+                    }
+                    1 if d > 0 => {
+                        let extra = self.r.below(2);
+                        s += &self.list_block(body_col + extra, d - 1)
+                    }
+                    2 => s += "\n",
+                    _ => {
+                        s += &" ".repeat(body_col);
+                        s += "tail line\n";
+                    }
+                }
+            }
+        }
+        s
+    }
     pub fn doc(&mut self) -> String {
         let mut s = String::new();
         for _ in 0..(1 + self.r.below(4)) {
@@ -650,6 +688,10 @@ impl G {
                     s += "Heading ";
                     s += &self.markup_inline(1).replace('\n', " ");
                     s += "\n";
+                }
+                6 if self.r.below(2) == 0 => {
+                    self.used.push("list-struct");
+                    s += &self.list_block(0, 2);
                 }
                 6 => {
                     self.used.push("list");
@@ -694,7 +736,7 @@ impl G {
     }
 }
 
-pub const GRAM_U: u64 = 2_000_000;
+pub const GRAM_U: u64 = 1_000_000;
 pub fn gram_case(idx: u64) -> (String, Cfg, Vec<&'static str>) {
     let mut g = G::new(mix(0x6A4D, idx));
     let src = g.doc();
@@ -969,7 +1011,7 @@ pub fn mal_case(idx: u64, fixtures: &Fixtures) -> (String, Cfg) {
 // ---------------------------------------------------------------------------------------------
 // G-imp: import statements (C19)
 // ---------------------------------------------------------------------------------------------
-pub const IMP_U: u64 = 500_000;
+pub const IMP_U: u64 = 200_000;
 pub fn imp_case(idx: u64) -> (String, Cfg) {
     let mut r = Rng::new(mix(0x1417, idx));
     let names = ["a", "b", "c", "zeta", "Alpha", "beta", "_x", "a1", "a-b", "é", "B", "aa", "ab"];
